@@ -255,7 +255,8 @@ pub fn run(ctx: &Ctx) -> Report {
     rep.rule = RULE.into();
     rep.assume("transcripts exclude error texts (Ok/Err only), as the property speaks of errors-or-not");
     rep.assume("Miri runs (thorough tier) use a short chain history (setup + 3 transactions) because the interpreter is ~4 orders of magnitude slower");
-    for k in ["c19/chain/twin_compared", "c19/chain/interleaved_compared", "c19/staking/twin_compared", "c19/bank/twin_compared", "c19/staking/fresh_thread_compared", "c19/chain/fresh_thread_compared", "c19/processes_compared", "c19/chain/unrelated_steps_interleaved", "c19/chain/after_foreign_instance_compared"] {
+    rep.add("c19/contract_panics_caught_on_other_instances", crate::engines::e7_determinism::PANICS_CAUGHT_ON_OTHER_INSTANCES.load(std::sync::atomic::Ordering::Relaxed));
+    for k in ["c19/chain/twin_compared", "c19/chain/interleaved_compared", "c19/staking/twin_compared", "c19/bank/twin_compared", "c19/staking/fresh_thread_compared", "c19/chain/fresh_thread_compared", "c19/processes_compared", "c19/chain/unrelated_steps_interleaved", "c19/chain/after_foreign_instance_compared", "c19/contract_panics_caught_on_other_instances"] {
         rep.require(k);
     }
     if thorough && rep.count("c19/miri_seeds_compared") == 0 && std::env::var("VERIF_MIRI_SEEDS").map(|s| s != "0").unwrap_or(true) {
